@@ -238,6 +238,12 @@ class Beam(_Simu):
         coord_e_pg = groupElem.Get_GaussCoordinates_e_pg(matrixType, elements)
         wJ_e_pg = groupElem.Get_weightedJacobian_e_pg(matrixType)[elements]
         N_e_pg = groupElem.Get_beam_N_e_pg(beamStructure)[elements]
+        # the rows of N are the displacement components in the beam axes,
+        # the unknowns are global: bring the rows back to the global axes (P^T N).
+        P_e = np.asarray(groupElem._Compute_P_e_pg(beamStructure))[elements, 0]
+        N_e_pg = np.einsum(
+            "eji,epjn->epin", P_e[:, :dof_n, :dof_n], N_e_pg, optimize="optimal"
+        )
         N_lag_pg = groupElem.Get_N_pg(matrixType)[:, 0, :]
 
         # Ne * dof_n * nPe DOFs per element (Hermitian N couples force and moment DOFs)
